@@ -95,8 +95,9 @@ def run(ctx):
            {"id": 5, "what": "unshare", "ops": [], "reps": ctx.pick(3, 20)},
            {"id": 6, "what": "openloss", "ops": [], "reps": ctx.pick(4, 20)},
            {"id": 7, "what": "buildfail", "ops": [], "reps": ctx.pick(4, 20)},
-           {"id": 8, "what": "clonefail", "ops": [], "reps": ctx.pick(4, 20)}]
-    cobs = contlib.run_sharded(ctx, "c12ctr", ctr, shards=8, timeout=2400)
+           {"id": 8, "what": "clonefail", "ops": [], "reps": ctx.pick(4, 20)},
+           {"id": 9, "what": "fdtight", "ops": [], "reps": ctx.pick(3, 15)}]
+    cobs = contlib.run_sharded(ctx, "c12ctr", ctr, shards=9, timeout=2400)
     bad_setup = [o for o in tobs + cobs if o is None or o.get("setup")]
     if bad_setup:
         raise vlib.Inconclusive("%d cases could not be set up: %s" % (len(bad_setup), json.dumps(bad_setup[0])[:500]))
